@@ -126,19 +126,56 @@ theorem C01_disclosed_subset_of_issued_passes (doc' mso is' vd : Cbor) (nsl nsl'
     (his : fget doc' "issuerSigned" = some is')
     (hns : fget is' "nameSpaces" = some (.map (nsl'.map fun e => (Cbor.text e.1, Cbor.array (e.2.map wireItem)))))
     (hvd : fget mso "valueDigests" = some vd)
-    (hent : ∀ e ∈ nsl, ∃ entries, mget vd (.text e.1) = some (.map entries) ∧ (entries.map (·.1)).Nodup ∧
-      ∀ it ∈ e.2, digestEntry (hashWith ((fget mso "digestAlgorithm").getD (.simple 22))) it ∈ entries)
+    (hent : ∀ e ∈ nsl, ∀ it ∈ e.2, ∃ entries, mget vd (.text e.1) = some (.map entries) ∧ (entries.map (·.1)).Nodup ∧
+      digestEntry (hashWith ((fget mso "digestAlgorithm").getD (.simple 22))) it ∈ entries)
     (hok : ∀ e ∈ nsl, ∀ it ∈ e.2, Cbor.wf it.toCbor ∧ textOk it.toCbor = true)
-    (hsub : ∀ e' ∈ nsl', ∃ e ∈ nsl, e.1 = e'.1 ∧ ∀ it ∈ e'.2, it ∈ e.2) :
+    (hsub : ∀ e' ∈ nsl', ∀ it ∈ e'.2, ∃ e ∈ nsl, e.1 = e'.1 ∧ it ∈ e.2) :
     digestsMatch doc' mso = true := by
   apply C09_issued_passes_reader_digest_check doc' mso is' vd nsl' his hns hvd
-  · intro e' he'
-    obtain ⟨e, he, hname, hin⟩ := hsub e' he'
-    obtain ⟨entries, h1, h2, h3⟩ := hent e he
-    exact ⟨entries, by rw [← hname]; exact h1, h2, fun it hit => h3 it (hin it hit)⟩
   · intro e' he' it hit
-    obtain ⟨e, he, _, hin⟩ := hsub e' he'
-    exact hok e he it (hin it hit)
+    obtain ⟨e, he, hname, hin⟩ := hsub e' he' it hit
+    obtain ⟨entries, h1, h2, h3⟩ := hent e he it hin
+    exact ⟨entries, by rw [← hname]; exact h1, h2, h3⟩
+  · intro e' he' it hit
+    obtain ⟨e, he, _, hin⟩ := hsub e' he' it hit
+    exact hok e he it hin
+
+/-- THE WHOLE HONEST PATH, FROM THE DISCLOSURE MODEL: a document the device prepares (`prepare`, C02's model)
+from what it holds, for ANY request and ANY permission, sent with its items as issued, passes the
+reader's digest comparison against the issuer's MSO - provided the device holds what was issued
+(every held item, read through the interpretation `nsName` / `item` of the abstract handles, is
+one of the issued items of that namespace).  The proof goes through `C02_disclosure_sound`: every
+disclosed item is the exact held item. -/
+theorem C01_prepared_document_passes_reader (held : Held) (req : Request) (perm : Permitted) (pd : PreparedDoc)
+    (hpd : pd ∈ (prepare held req perm).1)
+    (nsName : Key → Bytes) (item : Nat → Item) (nsl : List (Bytes × List Item))
+    (hheld : ∀ ns e it, Holds held pd.docType ns e it → ∃ its, (nsName ns, its) ∈ nsl ∧ item it ∈ its)
+    (doc' mso is' vd : Cbor)
+    (his : fget doc' "issuerSigned" = some is')
+    (hns : fget is' "nameSpaces" = some (.map ((pd.disclosed.map fun d => (nsName d.1, d.2.map item)).map
+      fun e => (Cbor.text e.1, Cbor.array (e.2.map wireItem)))))
+    (hvd : fget mso "valueDigests" = some vd)
+    (hent : ∀ e ∈ nsl, ∀ it ∈ e.2, ∃ entries, mget vd (.text e.1) = some (.map entries) ∧ (entries.map (·.1)).Nodup ∧
+      digestEntry (hashWith ((fget mso "digestAlgorithm").getD (.simple 22))) it ∈ entries)
+    (hok : ∀ e ∈ nsl, ∀ it ∈ e.2, Cbor.wf it.toCbor ∧ textOk it.toCbor = true) :
+    digestsMatch doc' mso = true := by
+  apply C01_disclosed_subset_of_issued_passes doc' mso is' vd nsl _ his hns hvd hent hok
+  intro e' he' it hit
+  obtain ⟨d, hd, rfl⟩ := List.mem_map.mp he'
+  obtain ⟨n, hn, rfl⟩ := List.mem_map.mp hit
+  obtain ⟨e, _, _, hholds⟩ := C02_disclosure_sound held req perm pd hpd d.1 n ⟨d.2, hd, hn⟩
+  obtain ⟨its, hmem, hin⟩ := hheld d.1 e n hholds
+  exact ⟨(nsName d.1, its), hmem, rfl, hin⟩
+
+/-- non-vacuity of the composition: the held set, request and permission of `C02_second_request_for_same_doctype_ignored`,
+the one-item issuance of C09's example -/
+example : digestsMatch exDoc exMso = true :=
+  C01_prepared_document_passes_reader
+    [(0, { canSign := true, namespaces := [(0, [(1, 11), (2, 22)])] })] [(0, [(0, [1])]), (0, [(0, [2])])] [(0, [(0, [1, 2])])]
+    { docType := 0, disclosed := [(0, [11])], errors := [] } (by decide)
+    (fun _ => [110]) (fun _ => exItem) [([110], [exItem])]
+    (fun _ _ _ _ => ⟨[exItem], by simp, by simp⟩)
+    exDoc exMso exIs exVd rfl rfl rfl ex_hent ex_hok
 
 end IssuedDisclosedAccepted
 
